@@ -45,7 +45,7 @@ MA2 = (f"""(define (domain ma2)
 
 MA3 = (f"""(define (domain ma3)
 {REQ}
-(:types agent item - object)
+(:types agent item - object crate - item)
 (:predicates (own ?a - agent ?i - item) (clean ?i - item) (idle ?a - agent))
 (:action wash :parameters (?a - agent)
   :precondition (and (idle ?a))
@@ -55,7 +55,7 @@ MA3 = (f"""(define (domain ma3)
 (:action rest :parameters (?a - agent)
   :precondition (and (forall (?i - item) (and (clean ?i)))) :effect (and (idle ?a))))
 """, """(define (problem ma3p) (:domain ma3)
-(:objects {agents} - agent i1 i2 - item)
+(:objects {agents} - agent i1 - item i2 - crate)
 (:init (idle a1) (own a1 i1) (own a2 i2))
 (:goal (and (clean i1))))
 """)
